@@ -19,6 +19,8 @@ echo "suite with change: $suite" | tee -a "$log"
 echo "== demo with change" >> "$log"
 arg="$wt/target/debug/rsjsonnet"; grep -qiE '^\s*#.*\$1.*worktree|worktree.*\$1' "$dst/demo.sh" && ! grep -qiE 'binary' "$dst/demo.sh" && arg="$wt"
 bash "$dst/demo.sh" "$arg" >> "$log" 2>&1; d1=$?
+# a demonstration that wants the worktree (not the binary) as $1 answers 2 (set-up problem) to a binary path: retry
+if [ $d1 -ge 2 ] && [ "$arg" != "$wt" ] && head -30 "$dst/demo.sh" | grep -qi worktree; then arg="$wt"; bash "$dst/demo.sh" "$arg" >> "$log" 2>&1; d1=$?; fi
 echo "demo with change: exit $d1" | tee -a "$log"
 git checkout -q -- .
 cargo build --offline -p rsjsonnet >> "$log" 2>&1
